@@ -215,11 +215,74 @@ def compile_phase(ck):
     ck.sub("compile-time-defines", sequences=n, exhaustive=True)
 
 
+def literal_equivalence(ck):
+    """'integer, float, boolean and string externals behave in conditions like literals of the same type': every operator table of
+    C04's sub-space 1 with each operand replaced by an external variable holding that value, evaluated by the reference evaluator"""
+    sys.path.insert(0, os.path.dirname(os.path.abspath(__file__)))
+    from refcond import Bin, Un, Int, Flt, Str, Raw, Ctx, UNDEF, verdict
+    I63 = (1 << 63) - 1
+    IV = [0, 1, 2, 3, -1, 63, 64, 255, I63, -I63, -(1 << 63)]
+    FV = [0.0, 1.5, -1.5]
+    SV = [b"", b"a", b"A", b"ab", b"b"]
+    BV = [0, 1]
+    defs = [("xi%d" % i, "i", v) for i, v in enumerate(IV)] + [("xf%d" % i, "f", v) for i, v in enumerate(FV)] + [("xs%d" % i, "s", v) for i, v in enumerate(SV)] + [("xb%d" % i, "b", v) for i, v in enumerate(BV)]
+    def ext(name, val): return Raw(name, lambda c, val=val: val)
+    conds = []
+    for op in ("+", "-", "*", "\\", "%", "&", "|", "^", "<<", ">>", "==", "!=", "<", "<=", ">", ">="):
+        for i, x in enumerate(IV):
+            for j, y in enumerate(IV):
+                e = Bin(op, ext("xi%d" % i, x), ext("xi%d" % j, y))
+                if op in ("==", "!=", "<", "<=", ">", ">="): conds.append(e)
+                else:
+                    ref = e.ev(Ctx())
+                    conds.append(Un("defined", e) if ref is UNDEF else Bin("==", e, Int(ref)))
+    for op in ("+", "-", "*", "==", "!=", "<", "<=", ">", ">="):
+        for i, x in enumerate(FV):
+            for j, y in enumerate(FV):
+                e = Bin(op, ext("xf%d" % i, x), ext("xf%d" % j, y))
+                conds.append(e if op in ("==", "!=", "<", "<=", ">", ">=") else Bin("==", e, Flt(e.ev(Ctx()))))
+            for j, y in enumerate(IV[:5]):
+                e = Bin(op, ext("xf%d" % i, x), ext("xi%d" % j, y))
+                conds.append(e if op in ("==", "!=", "<", "<=", ">", ">=") else Bin("==", e, Flt(e.ev(Ctx()))))
+    for op in ("==", "!=", "<", "<=", ">", ">=", "contains", "icontains", "startswith", "istartswith", "endswith", "iendswith", "iequals"):
+        for i, x in enumerate(SV):
+            for j, y in enumerate(SV):
+                conds.append(Bin(op, ext("xs%d" % i, x), ext("xs%d" % j, y)))
+                conds.append(Bin(op, ext("xs%d" % i, x), Str(y)))
+    for i, x in enumerate(BV):
+        b = ext("xb%d" % i, bool(x))
+        conds += [b, Un("not", b), Un("defined", b)]
+        for j, y in enumerate(BV):
+            c2 = ext("xb%d" % j, bool(y))
+            conds += [Bin("and", b, c2), Bin("or", b, Un("not", c2))]
+    w = yv.get_worker("plain")
+    n = bad = 0
+    for ch in yv.chunked(list(enumerate(conds)), 150):
+        text = "\n".join("rule l%d { condition: %s }" % (k, e.s()) for k, e in ch)
+        cmds = ["reset", "compiler 0"] + ["defc 0 %s %s %s" % (nm, t, yv.hx(v) if t == "s" else v) for (nm, t, v) in defs] + ["add 0 - " + yv.hx(text), "getrules 0 0", "cdestroy 0", "scan target=r0 via=mem ml=0 data=" + yv.hx(b"abc")]
+        rep = w.batch(cmds)
+        add = [r for r in rep if "errors" in r][0]
+        if add["errors"]:
+            ck.violation("C20:literal-equivalence:rejected", dict(messages=add["msgs"][:3])); continue
+        got = {m[1].split(":")[1]: m[0] == "m" for m in rep[-1]["t"] if m[0] in ("m", "n")}
+        for k, e in ch:
+            n += 1
+            exp = verdict(e, Ctx())
+            if got.get("l%d" % k) != exp:
+                bad += 1
+                ck.violation("C20:literal-equivalence:%s" % (e.op if hasattr(e, "op") else "bool"), dict(condition=e.s(), expected=exp, observed=got.get("l%d" % k), externals=[d for d in defs if d[0] in e.s()]))
+    ck.sub("literal-equivalence", conditions=n, externals=len(defs))
+    ck.cov["evaluations"] += n
+    yv.drop_worker("plain")
+    return n
+
+
 def main():
     ck = yv.Check("C20", "model_checking")
     depth = 5 if ck.tier == "quick" else 7
     modes = ["compile"] if ck.tier == "quick" else ["compile", "load"]
     compile_phase(ck)
+    literal_equivalence(ck)
     total_states = total_trans = 0
     for mode in modes:
         seen = {canon(init_state()): []}
